@@ -1,6 +1,7 @@
 import Driver.Util
 import Driver.C09
 import OtelVerif.Model.B3
+import OtelVerif.Model.Propagator
 namespace Driver
 open Otel Otel.TraceContext
 
@@ -10,12 +11,37 @@ def c16ShowRes : IxRes (Option SpanCtx) → String
   | .fault .ub => "FAULT ub"
   | .fault .fuel => "FAULT fuel"
 
+/-- `- - -` = no span in the context, `x - -` = a value of another type under the span key: `GetSpan` then hands out
+    the invalid default span, i.e. the all-zero span context -/
 def c16MkCtx (tid sid fl : String) : Option SpanCtx :=
+  if (tid = "-" ∨ tid = "x") ∧ sid = "-" ∧ fl = "-" then
+    some { traceId := List.replicate 16 0, spanId := List.replicate 8 0, flags := 0, remote := false, traceState := [] }
+  else
   match ofHexStr tid, ofHexStr sid, ofHexStr fl with
   | some tid, some sid, some [f] =>
     if tid.length ≠ 16 ∨ sid.length ≠ 8 then none
     else some { traceId := tid, spanId := sid, flags := f, remote := false, traceState := [] }
   | _, _, _ => none
+
+def c16Fields (names : List Bytes) (n : String) : String :=
+  match (if n.length ≤ 2 ∧ n.all Char.isDigit then n.toNat? else none) with
+  | some stop =>
+    let r := Propagation.fieldsOf names { seen := [], calls := 0, stopAt := stop }
+    "f=[" ++ ",".intercalate (r.1.seen.map hexArg) ++ "] ret=" ++ bool01 r.2
+  | none => "bad-op"
+
+/-- `TraceIdFromHex` / `SpanIdFromHex` called directly: the id bytes (the return value of `HexToBinary` is ignored);
+    text that is not hex is outside their domain -/
+def c16IdFromHex (h : String) (n : Nat) : String :=
+  match ofHexStr h with
+  | some h =>
+    if !isValidHex h then "bad-op" else
+    match Idx.hexToBinary h n with
+    | .ok r => "id=" ++ hexArg r.2
+    | .fault .oob => "FAULT oob"
+    | .fault .ub => "FAULT ub"
+    | .fault .fuel => "FAULT fuel"
+  | none => "bad-op"
 
 /-- `b3 inject-single|inject-multi|rt-single|rt-multi <tid> <sid> <flags>` / `b3 extract <b3> <X-B3-TraceId> <X-B3-SpanId> <X-B3-Sampled>` -/
 def handleB3 : List String → String
@@ -39,10 +65,21 @@ def handleB3 : List String → String
     | some sc => match B3.injectMulti sc with
       | none => "none"
       | some (t, s, f) => c16ShowRes (B3.extract [] t s f)
-  | ["extract", b3, tid, sid, smp] =>
+  | [op, b3, tid, sid, smp] =>
+    -- `extract-over`: the caller's context already holds a span; the observation is the same function of the carrier
+    if op ≠ "extract" ∧ op ≠ "extract-over" then "bad-op" else
     match ofHexStr b3, ofHexStr tid, ofHexStr sid, ofHexStr smp with
     | some b3, some tid, some sid, some smp => c16ShowRes (B3.extract b3 tid sid smp)
     | _, _, _, _ => "bad-op"
+  | ["fields-single", n] => c16Fields Propagation.b3SingleFields n
+  | ["fields-multi", n] => c16Fields Propagation.b3MultiFields n
+  | ["flags", h] => match ofHexStr h with
+    | some h => match B3.traceFlagsFromHex h with
+      | .ok f => s!"fl={hexArg [f]}"
+      | r => c16ShowRes (r.map fun _ => none)
+    | none => "bad-op"
+  | ["tidhex", h] => c16IdFromHex h (Gen.b3TraceIdHexLen / 2)
+  | ["sidhex", h] => c16IdFromHex h (Gen.b3SpanIdHexLen / 2)
   | _ => "bad-op"
 
 /-- `jg inject|rt <tid> <sid> <flags>` / `jg extract <uber-trace-id>` -/
@@ -60,6 +97,10 @@ def handleJg : List String → String
   | ["extract", h] => match ofHexStr h with
     | some h => c16ShowRes (Jaeger.extract h)
     | none => "bad-op"
+  | ["extract-over", h] => match ofHexStr h with
+    | some h => c16ShowRes (Jaeger.extract h)
+    | none => "bad-op"
+  | ["fields", n] => c16Fields Propagation.jaegerFields n
   | _ => "bad-op"
 
 def C16.handlers : List (String × (List String → String)) := [("b3", handleB3), ("jg", handleJg)]
